@@ -215,8 +215,45 @@ impl SelectorsParser {
         }
     }
 
+    /// Parsing, validation and compilation (and dropping the parsed selector) recurse on nested
+    /// blocks such as `:not(:not(…))`, so the nesting depth of untrusted selectors is capped to
+    /// keep the stack usage bounded.
+    const MAX_NESTING_DEPTH: usize = 64;
+
+    fn exceeds_max_nesting_depth(selector: &str) -> bool {
+        let mut depth = 0usize;
+        let mut quote = None;
+        let mut bytes = selector.bytes();
+
+        while let Some(b) = bytes.next() {
+            match (quote, b) {
+                (_, b'\\') => {
+                    bytes.next();
+                }
+                (Some(q), _) if b == q => quote = None,
+                (Some(_), _) => {}
+                (None, b'"' | b'\'') => quote = Some(b),
+                (None, b'(' | b'[') => {
+                    depth += 1;
+
+                    if depth > Self::MAX_NESTING_DEPTH {
+                        return true;
+                    }
+                }
+                (None, b')' | b']') => depth = depth.saturating_sub(1),
+                (None, _) => {}
+            }
+        }
+
+        false
+    }
+
     #[inline]
     pub fn parse(selector: &str) -> Result<SelectorList<SelectorImplDescriptor>, SelectorError> {
+        if Self::exceeds_max_nesting_depth(selector) {
+            return Err(SelectorError::UnsupportedSyntax);
+        }
+
         let mut input = ParserInput::new(selector);
         let mut css_parser = CssParser::new(&mut input);
 
